@@ -26,7 +26,7 @@ PROP = "C15"
 RULE = (
     "project variants {black-clean files, unclean files, format-command (cat: a subprocess formatter that changes nothing)} x flag sets {create,fix,trim,update / create,fix}: 2 test files with 3 outsourced externals, "
     "pending create/fix/trim/update changes and one HasRepr value needing an import; fault space = every boundary of the recorded session-end trace (quick: every distinct boundary "
-    "name x position class first/middle/last occurrence; thorough: every index) x {raise, kill}, plus 3 black faults x call index and 7 format-command faults; case = one faulted session; "
+    "name x position class first/middle/last occurrence; thorough: every index) x {raise, kill}, plus 3 black faults x call index and 8 format-command faults; case = one faulted session; "
     "non-trivial = the fault was actually injected (inject event in the audit log / formatter fault observed); distinct = (boundary name, position class, fault kind, variant)."
 )
 ASSUMPTIONS = [
@@ -186,7 +186,7 @@ def run_shard(args):
                 for idx in (None, 1, 3):
                     jobs.append((vname, fargs, files, expected_new, None, "black:" + bk + (f"@{idx}" if idx else ""), "fmt", ("black", bk, idx)))
         else:
-            for cmdk, cmd in (("nonzero", "exit 3"), ("garbage", "echo 'GARBAGE((( not python'"), ("empty", "true"), ("stderr-nonzero", "echo oops >&2; exit 1"), ("truncated-nonzero", "head -n 14; exit 1"), ("stderr-looks-like-markup-nonzero", "echo 'error: cannot format [/tmp/x.py]: [bold]bad[/]' >&2; exit 1"), ("complete-nonzero", "cat; exit 2")):
+            for cmdk, cmd in (("nonzero", "exit 3"), ("garbage", "echo 'GARBAGE((( not python'"), ("empty", "true"), ("stderr-nonzero", "echo oops >&2; exit 1"), ("truncated-nonzero", "head -n 14; exit 1"), ("whitespace-only-zero", "cat > /dev/null; echo; echo '   '"), ("stderr-looks-like-markup-nonzero", "echo 'error: cannot format [/tmp/x.py]: [bold]bad[/]' >&2; exit 1"), ("complete-nonzero", "cat; exit 2")):
                 jobs.append((vname, fargs, files, expected_new, None, "format-command:" + cmdk, "fmt", ("cmd", cmd, None)))
     # in quick mode spread the jobs of the (shard % 3) variant over the shards that share it
     if tier == "quick":
@@ -295,5 +295,5 @@ def main(tier, seed):
     inj, miss = out.counters.get("faults_injected", 0), out.counters.get("faults_not_reached", 0)
     if miss > 0.2 * max(1, inj + miss):
         out.inconclusive.append(f"{miss} of {inj + miss} planned faults were never reached (non-deterministic boundary trace)")
-    out.extra["fault_space"] = "boundary index x {raise, kill} over the recorded session-end trace of each project variant + 9 black faults + 7 format-command faults; quick enumerates every distinct boundary name x {first, middle, last occurrence}, thorough every index"
+    out.extra["fault_space"] = "boundary index x {raise, kill} over the recorded session-end trace of each project variant + 9 black faults + 8 format-command faults; quick enumerates every distinct boundary name x {first, middle, last occurrence}, thorough every index"
     return common.finish(out, RULE, ASSUMPTIONS, min_evals=40, min_distinct=30, required_counters=("boundaries_recorded", "faults_injected", "files_classified", "references_checked", "trace_shape_checked", "formatter_faults", "stack_probes"))
